@@ -212,3 +212,17 @@ Theorem C15_source_thin_bodies :
   thin_of "TryFrom<Box<[T]>> for GenericArray<T,N>" "try_from" = Some "Vec :: from (value) . try_into ()" /\
   thin_of "IntoIterator for Box<GenericArray<T,N>>" "into_iter" = Some "GenericArray :: into_vec (self) . into_iter ()".
 Proof. repeat split. Qed.
+
+(* ---- T2: the bounds of the trait impls this property's operations come from, as they stand in the source now
+        (coq/gen/GenSigs.v gen_impl_bounds): code that is generic over the lengths / element type and states
+        exactly these bounds can call them ---- *)
+From Coq Require Import String.
+From GA Require Import SigDefs.
+From GAGen Require Import GenSigs.
+Local Open Scope string_scope.
+
+Theorem C15_source_impl_bounds :
+  bounds_of "TryFrom<Vec<T>> for GenericArray<T,N>" = Some ["N:ArrayLength"] /\
+  bounds_of "TryFrom<Box<[T]>> for GenericArray<T,N>" = Some ["N:ArrayLength"] /\
+  bounds_of "IntoIterator for Box<GenericArray<T,N>>" = Some ["N:ArrayLength"].
+Proof. repeat split. Qed.
